@@ -97,6 +97,9 @@ def generate(rng, tier):
     n = 120 if tier == "quick" else 1200
     cases = [gen_case(rng, tier, i) for i in range(n)]
     for c in cases:
+        # a NumPy model that drops the batch axis for a single sample (np.squeeze at its end): supported by the
+        # callable branch; matters when a mask batch holds exactly one mask
+        c["squeeze_single"] = rng.random() < 0.35
         if not c["eager"] and rng.random() < 0.3:
             c["warm_v"] = rng.choice([w for w in (0.0, 2.0, -1.0, 0.5) if w != c["v"]])
     return cases
@@ -133,7 +136,7 @@ def spatial(case):
 def run_impl(case):
     import tensorflow as tf
     from xplique.attributions import Rise
-    model = fam.FQuadNumpy(case["params"], record=True)
+    model = fam.FQuadNumpy(case["params"], record=True, squeeze_single=bool(case.get("squeeze_single")))
     grid = tuple(case["grid"]) if isinstance(case["grid"], list) else case["grid"]
     n, nb = len(case["xs"]), case["nb"]
     xs = np.array(case["xs"], dtype=np.float32).reshape([n] + case["shape"])
